@@ -912,6 +912,44 @@ class RowItem(LRef):
         return "RowItem(...)"
 
 
+class YieldedRef(LRef):
+    """A list object after a generator run to exhaustion has YIELDED it (interp._yield): CPython hands the consumer
+    the very list object, so a later in-place change by the generator would show in the row already yielded.  The
+    model yields the content by value and keeps the list readable -- it may be read, sliced, concatenated and yielded
+    again (SolidCanvas.content yields one `line` for every row) -- but any in-place change afterwards is rejected
+    (every list-mutation model assigns `.seq`), which is exactly the condition under which by-value and by-reference
+    agree.  Cross-check against CPython: spec/xcheck_cases.py x_generator_same_list."""
+
+    @property
+    def seq(self):
+        return self._content
+
+    @seq.setter
+    def seq(self, new):
+        raise Unsupported("a list is changed in place after it was yielded (the yielded row would change with it: aliasing is not modelled)")
+
+    def snapshot(self):
+        return LRef(self._content)
+
+    def __repr__(self):
+        return f"YieldedRef({self._content!r})"
+
+
+def yielded_value(v):
+    """The value a generator run to exhaustion yields for `v`: a plain list object is yielded by value and frozen
+    (YieldedRef); rows of nested lists as in `row_value`."""
+    if type(v) is LRef:
+        content = v.__dict__.pop("seq")
+        v.__class__ = YieldedRef
+        v._content = content
+        return content
+    if isinstance(v, YieldedRef):
+        return v._content
+    if isinstance(v, LRef):
+        return row_value(v)
+    return v
+
+
 class DRef(Sym):
     """A mutable dict with concrete keys (reference semantics)."""
 
